@@ -65,6 +65,11 @@ def real_objdump_cases(rnd, tier, prop):
         # instructions with two memory operands, prefixes, indirect branches, long nops ...
         obj = objdump.assemble(objdump.template_source(rnd, sz["templates"] // 2, extended=True), "tmplx")
         texts.append(("assembled extended templates", objdump.objdump_text(obj)))
+        # the same code at a high-half address: objdump prints such addresses flush left (no leading blanks)
+        import subprocess
+        small = objdump.assemble(objdump.template_source(rnd, 400, extended=True), "tmplhi")
+        subprocess.run(["objcopy", "--change-section-address", ".text=0xffffffff81000000", small, small + ".hi"], check=True)
+        texts.append(("assembled templates at 0xffffffff81000000", objdump.objdump_text(small + ".hi")))
     chunks = []
     for origin, text in texts:
         lines = text.split("\n")
